@@ -21,7 +21,7 @@ BUDGET = {"quick": 16000, "thorough": 400000}
 TIME_CAP = {"quick": 70, "thorough": 1500}
 MIN_PER_SHARD = 50
 ANCHORS = c01.ANCHORS[:7]
-REQUIRED_MONITORS = ["exception-type", "retained-prefix", "numeric-coordinates", "post-operations", "steps"]
+REQUIRED_MONITORS = ["exception-type", "retained-prefix", "numeric-coordinates", "post-operations", "steps", "finite-coordinates"]
 
 STEP_BASE = 20000
 STEP_PER_CHAR = 400
@@ -30,7 +30,7 @@ STEP_PER_CHAR = 400
 def strata_minimum(tier):
     f = 1 if tier == "quick" else 20
     return {"truncation": 150 * f, "token-fault": 800 * f, "flag-fault": 200 * f, "stray-char": 600 * f, "no-current-point": 300 * f,
-            "long": 20 * f, "close-chain": 8 * f if tier == "quick" else 60, "garbage": 200 * f}
+            "long": 20 * f, "close-chain": 8 * f if tier == "quick" else 60, "garbage": 200 * f, "extreme-number": 400 * f}
 
 
 _steps = None
@@ -47,6 +47,10 @@ def nontrivial(case):
 
 STRAY = list("#$%&'()*;<=>?@[\\]^_`{|}~\"!:/") + ["\x00", "\x01", "\x07", "\x0b", "\x1b", "\x7f", " ", " ", "　",
                                                      "٣", "１", "Ｍ", "é", "ı", "K", "\U0001d7d8", "e", "E", "x", "N", "n", "i", "--", "++", "..", ",,", "1e", "e5", ".", "-", "+"]
+
+
+EXTREME = ["1e999", "-1e999", "1e309", "1e308", "-1.7e308", "1e200", "-1e200", "1e160", "1e155", "1e-155", "1e-160", "1e-200", "-1e-200", "1e-320", "1e-999", "4.9e-324",
+           "1e+999", "1E400", ".1e-400", "179769313486231570000000000000000000000000000000000000000000000000000000000000000000000000000000000000000000000000000000000000000000000000000000000000000000000000000000000000000000000000000000000000000000000000000000000000000000000000000000000000000000000000000000000000000000000000000000000"]
 
 
 def _conforming(R, maxcmd=5):
@@ -109,6 +113,19 @@ def gen_case(R, index, tier):
         first = G.command(R, R.choice("LlHhVvCcSsQqTtAaZz"), zprob=0.1)
         rest = [G.command(R, R.choice(G.LETTERS)) for _ in range(R.randint(0, 3))]
         return {"stratum": "no-current-point", "text": G.spell_program(R, [first] + rest), "first": first["c"]}
+    if k < 0.90:
+        # one number replaced by a literal at the edge of the float range (overflow to infinity, underflow to zero, squares that overflow)
+        prog, text = _conforming(R, 5)
+        toks = []
+        for com in prog:
+            toks.append(("cmd", com["c"]))
+            toks += G.tokens(com, R)
+        nums = [i for i, (kd, _) in enumerate(toks) if kd == "num"]
+        if nums:
+            i = R.choice(nums)
+            lit = R.choice(EXTREME)
+            toks[i] = ("num", lit)
+            return {"stratum": "extreme-number", "text": " ".join(t for _, t in toks), "literal": lit}
     if k < 0.96:
         alphabet = "MmZzLlHhVvCcSsQqTtAa0123456789.,-+eE \t\n"
         text = "".join(R.choice(alphabet) for _ in range(R.randint(1, 60)))
@@ -200,10 +217,19 @@ def examine(S, ctx, text, stratum, count_steps):
     begins_with_move = text.lstrip("\t \n\x0c\r")[:1] in ("M", "m")
     prog, err, partial = pathscan.scan_prefix(text, fragment=not begins_with_move, lenient=True)
     segs = list(p)
-    if any(abs(v) > 1e9 for com in prog for g in com["g"] for v in g):
+    if stratum == "extreme-number" or any(abs(v) > 1e9 for com in prog for g in com["g"] for v in g):
         # truncation and stray characters can glue digits together; magnitudes beyond the stated range
         # (and literals that overflow to infinity) are judged on exception type and termination only
-        ctx.note("number-beyond-1e9 (out of scope, only exception type and steps were judged)")
+        ctx.note("number-beyond-1e9 (out of scope for geometry: exception type, steps and finiteness of what is retained were judged)")
+        ctx.mon("finite-coordinates")
+        for i, seg in enumerate(segs):
+            for n in ("start", "end", "control", "control1", "control2", "center", "prx", "pry"):
+                v = getattr(seg, n, None)
+                if v is not None and not (_numeric(v.x) and _numeric(v.y)):
+                    how = "literal-overflows-to-infinity" if any(abs(v_) == math.inf for com in prog for g in com["g"] for v_ in g) else (
+                        "arc-parameters-overflow" if isinstance(seg, S.Arc) and n in ("center", "prx", "pry") else "coordinate-arithmetic-overflows")
+                    ctx.violation("non-finite-coordinate/%s" % how, "Path().parse(%r) retained segment %d %s with %s = %r" % (text[:300], i, type(seg).__name__, n, (v.x, v.y)), monitor="finite-coordinates")
+                    return
         return
     ctx.mon("numeric-coordinates")
     bad_coord = None
